@@ -57,6 +57,16 @@ def check(ctx):
     rep.add('Y1', fi.site(loop), 'numerator is invariant under the role swap', E is not None and E.subst(SWAP) == E, expected=E,
             found=E.subst(SWAP) if E is not None else None, stmt='sigma(numerator)')
     rep.floor('Y1', 'symmetry obligations', sum(1 for o in rep.obs if o.rule.endswith('Y1')), 5)
+    # "for all signatures ... in any container / width": the bulk entry points hand the kernel the signatures they were given
+    # (C05 clauses re-evaluated: cell = kernel value of that pair; the container wrap keeps each signature's own dtype)
+    from . import c05
+    rep.rule('B1', 'C05-B1 re-evaluated: every cell of a bulk result is a kernel value / copy / zero')
+    rep.rule('B3', 'C05-B3 re-evaluated: fast path operands'); rep.rule('B4', 'C05-B4 re-evaluated: slow path pairing')
+    rep.rule('B5', 'C05-B5 re-evaluated: matrix chunk / column selection and container wrap'); rep.rule('B6', 'C05-B6 re-evaluated: pairwise selection, mirror, offsets')
+    c05.check_stores(ctx)
+    c05.check_array(ctx)
+    c05.check_matrix(ctx)
+    c05.check_pairwise(ctx)
 
 
 from ..variants import V  # noqa: E402
